@@ -172,10 +172,8 @@ Proof.
       destruct (limiter_add c (lims st) a) as [l'|] eqn:A; [|discriminate]. inversion E; subst. apply (limiter_add_inv c _ a l H A). }
     destruct (scope_reserve _ (Conn i) (KConn inb usefd)) as [m1 e1]. destruct e1 as [e|]; [|exact Hl].
     destruct (match ep with Some a => allowed c a | None => false end).
-    + match goal with |- context [conn_done c ?s i] => set (st2 := conn_done c s i) end.
-      assert (H2 : lim_inv c (lims st2)) by (apply conn_done_lims; exact Hl).
-      destruct (scope_reserve _ (Conn i) (KConn inb usefd)) as [m4 e4]. destruct e4 as [e'|]; [|exact H2].
-      apply conn_done_lims. exact H2.
+    + destruct (scope_reserve _ (Conn i) (KConn inb usefd)) as [m4 e4]. destruct e4 as [e'|]; [|exact Hl].
+      apply conn_done_lims. exact Hl.
     + apply conn_done_lims. exact Hl.
   - (* SetPeer *) rewrite set_peer_lims. exact H.
   - unfold open_stream. destruct (scope_reserve _ (Stream j) (KStream inb)) as [m3 e]. destruct e; exact H.
